@@ -485,7 +485,11 @@ func TestVerifReplay(t *testing.T) { verifReplayRun(t, %q, %s) }
 	ovb, _ := json.Marshal(map[string]interface{}{"Replace": repl})
 	ovf := filepath.Join(dir, "overlay.json")
 	os.WriteFile(ovf, ovb, 0644)
-	targs := []string{"test", "-vet=off", "-count=1", "-timeout", "120s", "-overlay", ovf, "-run", "^TestVerifReplay$"}
+	nativeLimit := "120s"
+	if v.Kind == "unwind" || v.Kind == "blocked" {
+		nativeLimit = "30s" // these reproduce as a timeout
+	}
+	targs := []string{"test", "-vet=off", "-count=1", "-timeout", nativeLimit, "-overlay", ovf, "-run", "^TestVerifReplay$"}
 	if h.Tags != "" {
 		targs = append(targs, "-tags", h.Tags)
 	}
@@ -511,6 +515,8 @@ func TestVerifReplay(t *testing.T) { verifReplayRun(t, %q, %s) }
 		return true, line
 	case v.Kind == "blocked" && strings.Contains(out, "panic: test timed out"):
 		return true, "native run deadlocked (test timed out)"
+	case v.Kind == "unwind" && strings.Contains(out, "panic: test timed out"):
+		return true, "native run did not terminate (test timed out)"
 	case strings.Contains(out, "VERIF-NOT-REPRODUCED"):
 		return false, "native run passed"
 	case strings.Contains(out, "VERIF-ASSUME-FAILED"):
